@@ -24,7 +24,8 @@ RULE = ('cases: (live) histories of 1-8 operations inside one phase body over fi
         'attach, log, read-live-view - with values from None, bool, int, float incl. NaN/+-inf, '
         'str, enum, nested lists/tuples/str-keyed dicts; every read compares '
         'PhaseState.as_base_types() and TestState.as_base_types() with the fresh renderer, and '
-        'the final record is compared too; (record) E1 programs with subtests, branches, '
+        'the final record is compared too; (live2) a second reader renders while the first is held '
+        'at each line of its rendering (the body stands still); (record) E1 programs with subtests, branches, '
         'checkpoints, diagnoses: final TestRecord.as_base_types() vs fresh renderer; (json) '
         'serialisation histories over {as_base_types, OutputToJSON with/without inline '
         'attachments, with/without allow_nan} in every order of length <= 3: strict parse, '
@@ -36,6 +37,7 @@ ASSUMPTIONS = [
     'dict-valued measurement values have str keys',
 ]
 REQUIRED_COUNTERS = ['live_reads_compared', 'final_records_compared',
+                     'concurrent_reads_compared',
                      'json_documents_parsed', 'attachments_round_tripped']
 EXHAUSTIVE = {'quick': True, 'thorough': True}
 PLAN = {
@@ -59,8 +61,22 @@ MEAS = ['s', 'sr', 'sx', 'd', 'dd']
 SER_STEPS = ['base', 'json_inline', 'json_noinline', 'json_nan', 'json_nan_noinline']
 
 
+_S = {}
+
+
 def setup():
   pm.htf()
+  from openhtf.core import measurements, test_state
+  from vf import pause
+  eng = pause.Engine([test_state.__file__, measurements.__file__],
+                     lambda th: 'RA' if th.name == 'RA' else None)
+  eng.install()
+  eng.enabled = False
+  _S['engine'] = eng
+
+
+def teardown():
+  _S['engine'].uninstall()
 
 
 def enumerated(tier):
@@ -81,6 +97,11 @@ def enumerated(tier):
     yield {'k': 'live', 'ops': [['setd', 'd', 0, v], ['read'], ['setd', 'd', 0, 2],
                                 ['read'], ['setd', 'd', 1, v], ['read']]}
     yield {'k': 'live', 'ops': [['setd', 'dd', 0, v], ['read']]}
+  # two concurrent readers of the running phase: reader RA is held at every
+  # line of its rendering while reader B renders
+  for ops_i in range(len(LIVE2_OPS)):
+    for idx in range(70):
+      yield {'k': 'live2', 'ops_i': ops_i, 'idx': idx}
   # serialisation histories
   m = 3
   for length in range(1, m + 1):
@@ -172,6 +193,108 @@ def declared_measurements(H):
           lambda v: v * 2 if isinstance(v, (int, float)) and not isinstance(v, bool) else v),
       H.Measurement('dd').with_dimensions('x', 'y').with_units('V').doc('two-d'),
   ]
+
+
+LIVE2_OPS = [
+    [['set', 's', 3], ['setd', 'd', 0, 2], ['setd', 'dd', 0, 10]],
+    [['setd', 'd', 0, 2], ['read1'], ['setd', 'd', 0, 3], ['set', 'sx', 3]],
+    [['set', 'sr', 19], ['read1'], ['set', 'sr', 3], ['set', 's', 4]],
+]
+_LIVE2_POINTS = {}
+
+
+def run_live2(case):
+  """After the body's assignments (the body then stands still) reader RA renders
+  the running phase and is held at a line of its path; reader B renders in the
+  meantime.  What B gets must equal a from-scratch rendering."""
+  import threading
+  from vf import render
+  H = pm.htf()
+  eng = _S['engine']
+  ops = LIVE2_OPS[case['ops_i']]
+  viol = []
+  c = {'live_reads_compared': 0, 'final_records_compared': 0,
+       'json_documents_parsed': 0, 'attachments_round_tripped': 0,
+       'concurrent_reads_compared': 0}
+  out = {}
+
+  def scenario(target):
+    @H.PhaseOptions(requires_state=True)
+    def put(state):
+      api = state.test_api
+      ps = state.running_phase_state
+      for op in ops:
+        if op[0] == 'set':
+          api.measurements[op[1]] = VALUES[op[2]]
+        elif op[0] == 'setd':
+          coords = op[2] if op[1] == 'd' else (op[2], 'y%d' % op[2])
+          api.measurements[op[1]][coords] = VALUES[op[3]]
+        elif op[0] == 'read1':
+          ps.as_base_types()        # an earlier rendering fills the caches
+      res = {}
+
+      def reader_a():
+        res['a'] = ps.as_base_types()
+
+      def reader_b():
+        live = ps.as_base_types()
+        fresh = render.phase_state(ps)
+        res['b'] = render.first_difference(fresh, live, 'phase')
+        res['b_done'] = True
+
+      eng.arm(target)
+      eng.enabled = True
+      try:
+        ta = threading.Thread(target=reader_a, name='RA')
+        ta.start()
+        if target is not None:
+          r = eng.run_action_at_pause(reader_b, wait_s=4, hold_s=0.2)
+          out['reached'], out['blocked'] = r['reached'], r['blocked']
+          if r.get('_thread'):
+            r['_thread'].join(10)
+        ta.join(10)
+        if not res.get('b_done'):
+          reader_b()
+      finally:
+        eng.enabled = False
+        eng.release()
+      out['diff'] = res.get('b')
+      out['seen'] = dict(eng.seen)
+
+    put = H.measures(*declared_measurements(H))(put)
+    t = H.Test(put)
+    CONF = pm._H['CONF']  # pylint: disable=protected-access
+
+    @CONF.save_and_restore(allow_unset_measurements=True)
+    def go():
+      t.execute()
+    go()
+    pm.prune_handlers()
+
+  key = case['ops_i']
+  if key not in _LIVE2_POINTS:
+    scenario(None)
+    _LIVE2_POINTS[key] = [(k, h) for k, n in sorted(out['seen'].items())
+                          for h in range(1, min(n, 2) + 1)]
+  pts = _LIVE2_POINTS[key]
+  if case['idx'] >= len(pts):
+    return {'sig': None, 'violations': [], 'counters': c, 'evaluations': 0,
+            'sample': False}
+  target = pts[case['idx']]
+  out.clear()
+  scenario(target)
+  if out.get('reached'):
+    c['concurrent_reads_compared'] = 1
+    c['live_reads_compared'] = 1
+  if out.get('diff'):
+    d = out['diff']
+    viol.append({'mechanism': 'live-view-stale-measured-value'
+                 if '.measured_value' in d else 'live-view-differs',
+                 'detail': {'second_reader': True, 'diff': d,
+                            'first_reader_held_at': [list(target[0]), target[1]],
+                            'ops': ops}})
+  return {'sig': ['live2', key, list(target[0]), target[1]], 'violations': viol,
+          'counters': c}
 
 
 def run_live(case):
@@ -412,4 +535,5 @@ def run_json(case):
 
 
 def run_case(case):
-  return {'live': run_live, 'record': run_record, 'json': run_json}[case['k']](case)
+  return {'live': run_live, 'live2': run_live2, 'record': run_record,
+          'json': run_json}[case['k']](case)
